@@ -11,7 +11,7 @@ from gen import corpus
 
 SYS_FLAGS = ["\\Seen", "\\Answered", "\\Flagged", "\\Deleted", "\\Draft"]
 TAME_KW = ["$Forwarded", "NonJunk", "kw1"]
-WILD_KW = ["a.b", "x-y", "a:b", "1", "not", "cur", "kw_2", "$MDNSent", "all", "first", "last", "caf\u00e9"]  # odd but valid atoms (names that ARE MH sequence names of system flags: see ALIAS_KW)
+WILD_KW = ["a.b", "x-y", "a:b", "1", "not", "cur", "kw_2", "$MDNSent", "all", "first", "last", "caf\u00e9", "a]b"]  # odd but valid atoms (names that ARE MH sequence names of system flags: see ALIAS_KW)
 ALIAS_KW = ["Seen", "unseen", "replied", "flagged", "Recent", "Deleted", "Draft"]
 FLAG_KEYS = ["ALL", "SEEN", "UNSEEN", "FLAGGED", "UNFLAGGED", "DELETED", "UNDELETED", "ANSWERED", "UNANSWERED", "DRAFT", "UNDRAFT"]
 LAT_PROFILES = ["zero", "small", "bimodal", "slow", "wide"]
